@@ -485,6 +485,7 @@ func TestVerifC13API(t *testing.T) {
 	lg.SetOutput(io.Discard)
 	m := metrics.NewMetrics(log.NewEntry(lg), 24*time.Hour)
 	s := &APIRegServer{logger: lg, metrics: m}
+	c13aAddrCases(out) // which address a request is attributed to (zz_verif_c13_raddr_test.go)
 
 	only := map[int]bool{}
 	if rp := vlib.Replay(); rp != "" {
